@@ -9,8 +9,12 @@ R03.5 parameters bind as name=value, inputs as name=key, the two sections are se
 """
 from __future__ import annotations
 
+import ast
+
+from ..model import src
+
 from ..report import Report, key_of
-from ..terms import NONE_T, dag_nodes, has_opaque, is_stringy, pretty
+from ..terms import NONE_T, dag_nodes, factor_cond, has_opaque, is_stringy, pretty
 from .common import TRUSTED_BASE, where
 from .keyterm import KeyTerms, all_conj, branches, walk_guarded
 
@@ -263,6 +267,8 @@ def run(A, R: Report, thorough: bool):
                 'parameters <literal> inputs', 'the hashed text does not contain both sections separated by a literal', witness=[pretty(digest_arg)[:200]], where=where(K.f_key))
         for j in joins:
             m = j[2]
+            if m[0] == 'map':
+                m = m[:2] + (factor_cond(m[2]),) + m[3:]
             body_ok = m[0] == 'map' and m[2][0] == 'cat' and any(p[0] == 'lit' and p[1] for p in m[2][1]) and all(any(v in dag_nodes(p) for p in m[2][1]) for v in m[1])
             R.check(body_ok, 'R03.5', 'TaskParameterConfig.get_name_for_persistence: input binding', key_of('input-binding', pretty(m)[:120]), 'name <literal> key for every input',
                     'inputs are not rendered as `name <separator> key` (an input wiring change can keep the key)', witness=[pretty(m)[:200]], where=where(K.f_key))
@@ -298,6 +304,28 @@ def run(A, R: Report, thorough: bool):
         R.check(not other, 'R03.9', 'AutoParameterObject.repr: skipped arguments', key_of('apo-other-skip', other), f'{len(conj_)} skip condition(s), all documented',
                 f'an __init__ argument is also left out of the rendering when `{other[0] if other else ""}` fails: objects differing only in such an argument (e.g. values passed through **kwargs) get one repr and share storage',
                 where=where(K.f_apo))
+
+    # ---- R03.13 IgnoreForPersistence.remove drops marker objects only
+    R.rule('R03.13', 'IgnoreForPersistence.remove (and its helpers) leaves out exactly the IgnoreForPersistence instances: no value is dropped because it is None / falsy', floor=1)
+    ifp = A.prog.find_cls('IgnoreForPersistence')
+    R.require(ifp is not None and 'remove' in ifp.methods, 'anchor: IgnoreForPersistence.remove missing')
+    bad13 = []
+    for m_ in ifp.methods.values():
+        for n_ in A.typer.own_nodes(m_):
+            tests = []
+            if isinstance(n_, ast.comprehension):
+                tests += n_.ifs
+            elif isinstance(n_, (ast.If, ast.IfExp)):
+                tests.append(n_.test)
+            for t_ in tests:
+                for x in ast.walk(t_):
+                    if isinstance(x, ast.Compare) and len(x.ops) == 1 and isinstance(x.ops[0], (ast.Is, ast.IsNot, ast.Eq, ast.NotEq)) and isinstance(x.comparators[0], ast.Constant) and x.comparators[0].value is None:
+                        bad13.append((m_, x))
+                if isinstance(t_, ast.Name) and not isinstance(n_, ast.IfExp):
+                    bad13.append((m_, t_))
+    R.check(not bad13, 'R03.13', 'IgnoreForPersistence.remove', key_of('none-as-marker', sorted({src(x) for _, x in bad13})), 'filters test isinstance(v, IgnoreForPersistence) only',
+            f'`{src(bad13[0][1]) if bad13 else ""}` filters cleaned values by None / truthiness: a genuine None (or falsy) element of a list / set / dict argument disappears from the repr, so '
+            'Schedule([0.1, None, 0.01]) and Schedule([0.1, 0.01]) share one key', where=where(bad13[0][0], bad13[0][1]) if bad13 else where(ifp.methods['remove']))
 
     # ---- R03.10 / R03.11 shared structural conditions of the key
     from .c02 import check_default_exemption
